@@ -26,13 +26,21 @@ def octetsToBits (bytes : List Nat) : List Bool := bytes.flatMap fun b => isBitS
 def chunkValue (bits : List Bool) : Nat :=
   (bits.zipIdx.map fun bi => if bi.1 then 2 ^ (7 - bi.2) else 0).sum
 
-/-- `bit_string_to_octet_string`: chunks of 8, error on a short last chunk -/
+/-- `bit_string_to_octet_string`: chunks of 8; since fix `f216731` a short last chunk is no error — the fold gives
+    its bits their weight counted from the most significant one, which is the padding with zero bits -/
 def bitsToOctets : Nat → List Bool → Option (List Nat)
   | 0, _ => none
   | fuel + 1, bits =>
     if bits.isEmpty then some []
-    else if bits.length < 8 then none
     else (bitsToOctets fuel (bits.drop 8)).map (fun r => chunkValue (bits.take 8) :: r)
+
+/-- the function as it was before the fix: a short last chunk is an error (and the value stayed a bit string) -/
+def bitsToOctetsOld : Nat → List Bool → Option (List Nat)
+  | 0, _ => none
+  | fuel + 1, bits =>
+    if bits.isEmpty then some []
+    else if bits.length < 8 then none
+    else (bitsToOctetsOld fuel (bits.drop 8)).map (fun r => chunkValue (bits.take 8) :: r)
 
 /-- `distinguished.iter().find_map(|d| (d.value == i).then_some(&d.name))` -/
 def firstNameAt (dv : List (String × Int)) (i : Int) : Option String :=
